@@ -1,6 +1,7 @@
 package props
 
 import (
+	"mc/refnas"
 	"bytes"
 	"fmt"
 
@@ -169,6 +170,10 @@ func runC11(ctx *Ctx) {
 				}
 				if !bytes.Equal(buf[1:4], want) {
 					r.Violate(fmt.Sprintf("EncodeSuci/plmn-octets/mnclen=%d", len(mnc)), imsi, fmt.Sprintf("got %x want %x", buf[1:4], want), nil)
+				}
+				// and octet for octet the identity of 9.11.3.4 (spare bits, routing indicator, filler, no octet too many)
+				if exp := refnas.EncodeSuci(mcc, mnc, string(msin)); !bytes.Equal(buf, exp) {
+					r.Violate(fmt.Sprintf("EncodeSuci/not-the-canonical-identity/mnclen=%d/msinlen%%2=%d", len(mnc), n%2), imsi, fmt.Sprintf("got %x want %x", buf, exp), nil)
 				}
 			}
 		}
